@@ -79,6 +79,8 @@ def recipes():
                   st.lists(st.sampled_from([0.0, 0.25, 1.0]), min_size=2, max_size=9), st.integers(0, 8)),
         st.builds(lambda v: {'r': 'equal', 'val': v}, st.sampled_from([1.0, 0.1, 3.0, 1e-7])),
         st.builds(lambda p: {'r': 'exact', 'pos': p}, st.integers(0, 500)),
+        st.builds(lambda n, o, w: {'r': 'cyc', 'vals': ([1.0, w] if o % 2 else [1.0]) + [0.0] * n, 'off': o},
+                  st.integers(1, 14), st.integers(0, 40), st.sampled_from([1.0, 0.5, 3.0])),
         st.builds(lambda v, p: {'r': 'dominant', 'vals': v, 'pos': p}, st.lists(pos, min_size=1, max_size=5), st.integers(0, 500)),
         st.builds(lambda p, q, s: {'r': 'thresh', 'pos': p, 'pos2': q, 'scale': s}, st.integers(0, 500), st.integers(0, 500),
                   st.sampled_from([1.0, 0.7, 3.0, 1e-3])),
